@@ -8,6 +8,7 @@ package main
 
 import (
 	"context"
+	"errors"
 	"flag"
 	"fmt"
 	"io"
@@ -18,6 +19,7 @@ import (
 	"strconv"
 	"strings"
 	"sync"
+	"sync/atomic"
 	"time"
 
 	"github.com/VKCOM/statshouse/internal/data_model/gen2/tlmetadata"
@@ -91,7 +93,11 @@ type op struct {
 	kvs                    [][2]int64 // (key, id)
 	ids                    []int64
 	since, page, from, ver int64
+	failAppend             bool // run while the binlog refuses the append
+	retryOf                *op  // the same request again, right after its refused attempt
 	// filled by execution
+	failed         bool               // returned the injected binlog error
+	jpage          []tlmetadata.Event // the page JournalEvents returned (kept alive, not copied)
 	ok             bool
 	rid, rver, rns int64
 	errc           int
@@ -100,6 +106,12 @@ type op struct {
 }
 
 func (o *op) coq() string {
+	if o.failAppend {
+		x := *o
+		x.failAppend = false
+		t := x.coq()
+		return "OFailAppend (F" + t[1:] + ")" // OSave.. -> FSave.., OGoc -> FGoc, OPut -> FPut, ODel -> FDel
+	}
 	switch o.kind {
 	case kSave:
 		return fmt.Sprintf("OSave %s %s %s %s %s %s %s %s %s %s", vu.Z(o.p), vu.Z(o.l), vu.Z(o.id), vu.Z(o.oldv), vu.Z(o.data), vu.B(o.create), vu.Z(o.del), vu.Z(o.typ), vu.Z(o.meta), vu.Z(o.now))
@@ -130,6 +142,11 @@ func (o *op) coq() string {
 
 // short replayable text
 func (o *op) text() string {
+	if o.failAppend {
+		x := *o
+		x.failAppend = false
+		return "FAILAPPEND:" + x.text()
+	}
 	b := func(x bool) string {
 		if x {
 			return "c"
@@ -267,6 +284,40 @@ var _ binlog.Logger = nopLogger{}
 
 type config struct{ max, step, bonus, global int64 }
 
+// faultyBinlog is the real fsbinlog with a switch that makes Append/AppendASAP refuse (write fault, back pressure,
+// shutdown in progress): the engine must then roll the transaction back and return the error.
+type faultyBinlog struct {
+	fsbinlog.BinlogReadWrite
+	fail atomic.Bool
+}
+
+var errInjected = errors.New("verif: binlog append refused")
+
+func (b *faultyBinlog) Append(onOffset int64, payload []byte) (int64, error) {
+	if b.fail.Load() {
+		return onOffset, errInjected
+	}
+	return b.BinlogReadWrite.Append(onOffset, payload)
+}
+
+func (b *faultyBinlog) AppendASAP(onOffset int64, payload []byte) (int64, error) {
+	if b.fail.Load() {
+		return onOffset, errInjected
+	}
+	return b.BinlogReadWrite.AppendASAP(onOffset, payload)
+}
+
+var (
+	faultMx  sync.Mutex
+	faultMap = map[*metadata.DBV2]*faultyBinlog{}
+)
+
+func faultOf(db *metadata.DBV2) *faultyBinlog {
+	faultMx.Lock()
+	defer faultMx.Unlock()
+	return faultMap[db]
+}
+
 func openDB(clock *int64, dir, file string, create bool, c config) (*metadata.DBV2, error) {
 	bo := fsbinlog.Options{PrefixPath: dir + "/bl", Magic: 3456}
 	if create {
@@ -274,10 +325,11 @@ func openDB(clock *int64, dir, file string, create bool, c config) (*metadata.DB
 			return nil, err
 		}
 	}
-	bl, err := fsbinlog.NewFsBinlog(nopLogger{}, bo)
+	fsbl, err := fsbinlog.NewFsBinlog(nopLogger{}, bo)
 	if err != nil {
 		return nil, err
 	}
+	bl := &faultyBinlog{BinlogReadWrite: fsbl}
 	type res struct {
 		db  *metadata.DBV2
 		err error
@@ -290,8 +342,13 @@ func openDB(clock *int64, dir, file string, create bool, c config) (*metadata.DB
 	}()
 	select {
 	case r := <-ch:
+		if r.db != nil {
+			faultMx.Lock()
+			faultMap[r.db] = bl
+			faultMx.Unlock()
+		}
 		return r.db, r.err
-	case <-time.After(20 * time.Second):
+	case <-time.After(300 * time.Second): // only a replay that hangs; generous because the machine may be heavily loaded
 		return nil, fmt.Errorf("open timeout")
 	}
 }
@@ -313,11 +370,24 @@ var ctx = context.Background()
 
 // exec runs one operation on the real database and returns the Coq term of its result
 func exec(clock *int64, db *metadata.DBV2, o *op) string {
+	if o.failAppend {
+		fb := faultOf(db)
+		fb.fail.Store(true)
+		defer fb.fail.Store(false)
+	}
+	return exec1(clock, db, o)
+}
+
+func exec1(clock *int64, db *metadata.DBV2, o *op) string {
 	*clock = o.now
 	switch o.kind {
 	case kSave:
 		ev, err := db.SaveEntity(ctx, nameStr(o.p, o.l), o.id, o.oldv, dataStr(o.data), o.create, uint32(o.del), int32(o.typ), metaStr(o.meta))
 		o.errc = metadata.VerifClassify(err)
+		if err != nil && errors.Is(err, errInjected) {
+			o.failed, o.errc = true, 7
+			return "XFail"
+		}
 		if err != nil {
 			return fmt.Sprintf("XSave %d 0 0 0", o.errc)
 		}
@@ -326,6 +396,10 @@ func exec(clock *int64, db *metadata.DBV2, o *op) string {
 	case kGoc:
 		r, err := db.GetOrCreateMapping(ctx, metricStr(o.metric), keyStr(o.key))
 		if err != nil {
+			if errors.Is(err, errInjected) {
+				o.failed, o.gkind = true, 3
+				return "XFail"
+			}
 			return unexp("GetOrCreateMapping", err)
 		}
 		if g, ok := r.AsGetMappingResponse(); ok {
@@ -348,6 +422,10 @@ func exec(clock *int64, db *metadata.DBV2, o *op) string {
 			ks[i], vs[i] = keyStr(kv[0]), int32(kv[1])
 		}
 		if err := db.PutMapping(ctx, ks, vs); err != nil {
+			if errors.Is(err, errInjected) {
+				o.failed, o.gkind = true, 3
+				return "XFail"
+			}
 			return unexp("PutMapping", err)
 		}
 		return "XU"
@@ -358,6 +436,10 @@ func exec(clock *int64, db *metadata.DBV2, o *op) string {
 		}
 		n, err := metadata.VerifDeleteMappings(db, ids)
 		if err != nil {
+			if errors.Is(err, errInjected) {
+				o.failed, o.gkind = true, 3
+				return "XFail"
+			}
 			return unexp("deleteMappings", err)
 		}
 		return "XN " + vu.Z(int64(n))
@@ -372,6 +454,7 @@ func exec(clock *int64, db *metadata.DBV2, o *op) string {
 		if err != nil {
 			return unexp("JournalEvents", err)
 		}
+		o.jpage = evs
 		return xh(len(evs), journalFlat(evs))
 	case kHist:
 		h, err := db.GetHistoryShort(ctx, o.id)
@@ -555,8 +638,23 @@ func pickCfg(r *vu.Rng) config {
 	}
 }
 
-func runCase(r *vu.Rng, root string, idx int, seed uint64) *rec {
-	o := &rec{}
+// aborted turns a case that cannot be completed (the database did not reopen, an engine call panicked, ...) into an
+// oracle failure that keeps everything the oracles found before; the case itself is emitted as the empty history
+func aborted(o *rec, idx int, seed uint64, what interface{}) {
+	o.Fail("case_aborted", 0, fmt.Sprintf("seed=%d case=%d: %v | %s", seed, idx, what, o.input))
+	h := hashZ(flatDump(metadata.VerifDump{}))
+	o.input = fmt.Sprintf("seed=%d case=%d aborted: %v", seed, idx, what)
+	o.term = fmt.Sprintf("CHist (Cfg 1 1 0 0) [] [] %d 0 (Some %d) (Some %d)", h, h, h)
+	o.nontrivial, o.kinds, o.debug = false, []string{"aborted"}, o.input
+}
+
+func runCase(r *vu.Rng, root string, idx int, seed uint64) (o *rec) {
+	o = &rec{}
+	defer func() {
+		if x := recover(); x != nil {
+			aborted(o, idx, seed, x)
+		}
+	}()
 	c := pickCfg(r)
 	dir := fmt.Sprintf("%s/c%d", root, idx)
 	if err := os.MkdirAll(dir, 0o755); err != nil {
@@ -592,6 +690,8 @@ func runCase(r *vu.Rng, root string, idx int, seed uint64) *rec {
 	var results []string
 	fl := newFloodOracle(c)
 	var pending []*op
+	var live []livePage
+	liveFailed := false
 	for len(ops) < nops {
 		var op_ *op
 		if len(ops) == snapAt && !tags["snap"] {
@@ -603,6 +703,13 @@ func runCase(r *vu.Rng, root string, idx int, seed uint64) *rec {
 		} else {
 			var more []*op
 			op_, more = genOp(r, c, sh, profile)
+			if (op_.kind == kSave || op_.kind == kGoc || op_.kind == kPut || op_.kind == kDel) && r.Chance(8) {
+				// fault: the binlog refuses the append during this request; then the very same request is retried
+				retry := *op_
+				retry.retryOf = op_
+				op_.failAppend = true
+				more = append([]*op{&retry}, more...)
+			}
 			pending = append(pending, more...)
 		}
 		// clock
@@ -636,7 +743,26 @@ func runCase(r *vu.Rng, root string, idx int, seed uint64) *rec {
 			results = append(results, "XU")
 			fl.reopen()
 		} else {
+			var before metadata.VerifDump
+			if op_.failAppend {
+				before, _ = metadata.VerifDumpDB(db)
+			}
 			results = append(results, exec(clock, db, op_))
+			if op_.failAppend {
+				// "an edit succeeds only when ..., exactly one succeeds": a request that returned an error (here: the event
+				// could not be logged) has changed nothing - journal, versions, history, mappings, flood limits
+				after, _ := metadata.VerifDumpDB(db)
+				be, bm, bf := dumpKeys(before)
+				ae, am, af := dumpKeys(after)
+				if be != ae || bm != am || bf != af {
+					o.Fail("failed_request_changes_nothing", 0, fmt.Sprintf("case=%d op=%s -> %s | cfg=(max=%d,step=%d,bonus=%d,global=%d) history so far: %s", idx, op_.text(), results[len(results)-1], c.max, c.step, c.bonus, c.global, opsText(ops)))
+				}
+				tags["fault_op"] = true
+			}
+			if op_.jpage != nil {
+				live = append(live, livePage{op_.jpage, fmt.Sprint(op_.jpage), op_.text()})
+			}
+			checkLive(o, live, idx, op_.text(), &liveFailed)
 		}
 		ops = append(ops, op_)
 		oracles(o, sh, fl, op_, results[len(results)-1], c, monotone, tags, idx, db)
@@ -645,10 +771,17 @@ func runCase(r *vu.Rng, root string, idx int, seed uint64) *rec {
 	if err != nil {
 		panic(err)
 	}
+	// two journal readers at different positions: reader A's page must still be what it was after reader B's call
+	if pageA, err := db.JournalEvents(ctx, 0, 3); err == nil && len(pageA) > 0 {
+		live = append(live, livePage{pageA, fmt.Sprint(pageA), "J(0,3)"})
+		_, _ = db.JournalEvents(ctx, pageA[len(pageA)-1].Version, 3)
+		checkLive(o, live, idx, "J(after first page,3)", &liveFailed)
+	}
 	full, err := db.JournalEvents(ctx, 0, 1000)
 	if err != nil {
 		panic(err)
 	}
+	checkLive(o, live, idx, "J(0,1000)", &liveFailed)
 	if err := db.Close(); err != nil {
 		panic(fmt.Sprint("close: ", err))
 	}
@@ -689,6 +822,43 @@ func runCase(r *vu.Rng, root string, idx int, seed uint64) *rec {
 	replayOracle(o, 0, input, "fresh", final, freshD, tags)
 	replayOracle(o, 0, input, "snapshot", final, snapD, tags)
 	return o
+}
+
+// a page returned by JournalEvents that the harness keeps (as a client that has not consumed it yet would)
+type livePage struct {
+	evs  []tlmetadata.Event
+	snap string
+	text string
+}
+
+// "the journal returns each entity's latest version exactly once in ascending version order": a page handed out stays
+// what it was, whatever journal calls (of the same or other readers, direct or through the RPC handler) follow
+func checkLive(o *rec, live []livePage, idx int, after string, failed *bool) {
+	if *failed {
+		return
+	}
+	for _, p := range live {
+		if now := fmt.Sprint(p.evs); now != p.snap {
+			*failed = true
+			o.Fail("journal_page_stable_across_calls", 0, fmt.Sprintf("case=%d page of %s changed after %s: was %s now %s", idx, p.text, after, versions(p.evs[:0:0]), trunc(now, 200))+" was "+trunc(p.snap, 200))
+			return
+		}
+	}
+}
+
+func trunc(s string, n int) string {
+	if len(s) > n {
+		return s[:n] + "..."
+	}
+	return s
+}
+
+func opsText(ops []*op) string {
+	parts := make([]string, len(ops))
+	for i, x := range ops {
+		parts[i] = x.text()
+	}
+	return strings.Join(parts, " ")
 }
 
 func dbgDump(d *metadata.VerifDump) string {
@@ -905,11 +1075,23 @@ func (f *floodOracle) reopen()             {}
 
 func oracles(o *rec, sh *shadow, fl *floodOracle, x *op, res string, c config, monotone bool, tags map[string]bool, idx int, db *metadata.DBV2) {
 	line := 0
+	where := func() string { return fmt.Sprintf("case=%d op=%s -> %s", idx, x.text(), res) }
+	if x.failAppend && x.failed {
+		tags["failed_append"] = true
+		return
+	}
+	if r0 := x.retryOf; r0 != nil && r0.failed {
+		// the refused request would have been committed, nothing changed since: the identical retry must be
+		retryOK := (x.kind == kSave && x.ok) || (x.kind == kGoc && x.gkind == 1) || x.kind == kPut || x.kind == kDel
+		if !retryOK {
+			o.Fail("retry_after_failed_request_refused", 0, where())
+		}
+		tags["retry_after_failed_append"] = true
+	}
 	if res == "XErr" {
 		o.Fail("unexpected_error", line, fmt.Sprintf("case=%d op=%s: %s", idx, x.text(), unexpected[len(unexpected)-1]))
 		return
 	}
-	where := func() string { return fmt.Sprintf("case=%d op=%s -> %s", idx, x.text(), res) }
 	switch x.kind {
 	case kSave:
 		if !x.ok {
@@ -1183,6 +1365,9 @@ func replayOracle(o *rec, line int, input, which string, prim metadata.VerifDump
 	pe, pm, pf := dumpKeys(prim)
 	re, rm, rf := dumpKeys(*rep)
 	if pe != re {
+		// C15: versions stay unique and increasing, and the journal keeps every entity's latest version, also after the
+		// state is rebuilt from the binlog (reported under C15; the replay_* oracles below are C16's)
+		o.Fail("journal_differs_after_binlog_rebuild_"+which, line, rebuildDiff(prim, *rep)+" | "+input)
 		if tags["rename"] {
 			o.Fail("replay_entities_differ_"+which+"_after_rename", line, input)
 		} else {
@@ -1202,6 +1387,19 @@ func replayOracle(o *rec, line int, input, which string, prim metadata.VerifDump
 }
 
 // witnesses replays the minimal input of every recorded finding on the real code
+func rebuildDiff(p, r metadata.VerifDump) string {
+	mx := func(d metadata.VerifDump) int64 {
+		m := int64(0)
+		for _, e := range d.Ents {
+			if e.Version > m {
+				m = e.Version
+			}
+		}
+		return m
+	}
+	return fmt.Sprintf("primary: %d entities max version %d; rebuilt: %d entities max version %d", len(p.Ents), mx(p), len(r.Ents), mx(r))
+}
+
 func witnesses(o *vu.Out, root string) {
 	run := func(name string, c config, f func(clock *int64, dir string, db *metadata.DBV2) bool) {
 		dir := root + "/w_" + name
